@@ -11,7 +11,7 @@ func init() {
 	register("C05", propMeta{
 		Explanation: "Decides the version-assignment mechanism: (R1) the version counter is written only under the balloon's exclusive lock; (R2) Add issues the old value and advances by one, AddBulk by len(bulk); (R3) per-index agreement of digest, history root and version in every bulk path (balloon, history tree, hyper tree); " +
 			"(R4) no error return leaves the counter advanced (tree insertions cannot fail, or the counter is restored); (R5) replay filter: shouldApply decided on every ordering of (persisted index, entry index) by a finite order model, applyAdd only under it, new state = {l.Index, Version()+len-1}, state published after the write, every failure of the apply aborts; " +
-			"(R6) RaftNode.Add/AddBulk return the FSM's snapshots unchanged; (R7) RefreshVersion = last history key + 1 from the history table; (R8) CurrentVersion reported by proofs = version-1.",
+			"(R6) RaftNode.Add/AddBulk return the FSM's snapshots unchanged; (R7) RefreshVersion = last history key + 1 from the history table; (R8) CurrentVersion reported by proofs = version-1, and the version fields are bound field-for-field by the wire conversions; (R9) a state transfer is loaded until the stream's io.EOF or fails (no silent prefix).",
 		Assumptions: []string{"raft delivers committed entries in index order", "the store's batch write is atomic (C14)"},
 		Declined:    "absence of gaps across restarts / leader changes / replays as a statement over schedules and crash points (raft's guarantees, RocksDB durability).",
 	}, runC05)
@@ -34,8 +34,25 @@ func runC05(c *Ctx) {
 	_, applyAdd := fsmApplyGuard(c, "R5")
 	fsmApplyAdd(c, "R5", applyAdd)
 	c05Proposer(c)
+	fsmResponseChecked(c, "R6")
 	c05Refresh(c)
 	c05Current(c)
+	// the store's batch write is one write (the version metadata, the tree mutations and the applied
+	// index land together): shared with C07/C14
+	rocksMutate(c, "R5")
+	// the version fields survive the conversion to and from the wire form unchanged (shared with C13)
+	sub := newCtx(c.P, c.Prop, c.Tier)
+	runC13(sub)
+	for _, in := range sub.Instances {
+		if in.Rule == c.Prop+".R1" && (strings.Contains(in.Construct, "ToMembershipResult") || strings.Contains(in.Construct, "ToBalloonProof")) {
+			in.Rule = c.Prop + ".R8"
+			c.Instances = append(c.Instances, in)
+		}
+	}
+	// a state transfer either completes or fails: a follower that silently keeps a prefix re-issues versions
+	c.Rule("R9", "a state transfer is loaded completely or reported as failed", 2)
+	streamEndOnlyOnEOF(c, "R9", c.P.MustMethod("storage/rocks", "RocksDBStore", "LoadSnapshot"))
+	streamReaderForwardsError(c, "R9")
 }
 
 func c05Counter(c *Ctx) {
@@ -286,7 +303,7 @@ func c05Proposer(c *Ctx) {
 			continue
 		}
 		got = t.String()
-		okB = t.Strip().Op == "field" && t.Strip().Name == "val" && t.Has(func(x *Term) bool { return x.Op == "call" && x.Fn != nil && x.Fn.Name() == "propose" })
+		okB = t.Strip().Op == "field" && t.Strip().Name == "val" && t.Has(isRaftResponse)
 	}
 	c.Check(okB, "R6", funcName(addBulk), addBulk.Pos(), "AddBulk returns the FSM response's snapshots", "RaftNode.AddBulk returns "+got)
 }
